@@ -181,8 +181,8 @@ def names_of_all(p):
 
 
 HVALS = [I(1), I(5), I(-2), I(0), {"t": "float", "n": 3, "d": 2}, {"t": "float", "n": 1, "d": 2}, STR("a"), STR(""),
-         LIST([I(1)]), LIST([]), LIST([I(1), I(2), I(3)]), {"t": "null"}]
-HTYPES = [TB("int"), TB("number"), TB("list"), TB("str"), TB("anything"), {"k": "sat", "name": "small"}]
+         LIST([I(1)]), LIST([]), LIST([I(1), I(2), I(3)]), {"t": "null"}, {"t": "stream", "v": [I(1), I(2)]}]
+HTYPES = [TB("int"), TB("number"), TB("list"), TB("str"), TB("anything"), {"k": "sat", "name": "small"}, TB("stream")]
 
 
 def random_action(rng):
